@@ -140,7 +140,7 @@ assert " ".join(_abs.ensures[0].text.split()) == " ".join(FRESH.replace("self", 
 assert [" ".join(c.text.split()) for c in _abs.requires] == [" ".join(c.text.split()) for c in CTOR_PRE]
 
 from pyvc.spec import trusted  # noqa: E402
-trusted("deme class invariants (DemePop, CmaDeme, SamplerDeme, LocalInv, 'not stopped by its engine while active', populated demes) are "
+trusted("deme class invariants (DemePop, CmaDeme, SamplerDeme, LocalInv, populated demes) are "
         "assumed at the entry of each concrete run_metaepoch / filter / generator: they are proved to be established by the constructors and "
         "kept by run_metaepoch; that the rest of the tree code does not break them is a framing argument on paper (DESIGN.md section 4)")
 trusted("level configurations are sane: pop_size >= 1, generations >= 1, a sprout seed for CMA-ES / local-search levels, a configuration "
